@@ -14,11 +14,19 @@ CFG = {
                  "(arguments, defaults, rest maps, bodies, nested, recursive to the depth limit), ternaries, and/or, default, ~, index/slice of "
                  "captured text, containers printed whole, __tera_context; template names .html/.txt with the default and a custom suffix list "
                  "(set before and after registration), render, render_block, render_str(autoescape), render_component(autoescape, body). "
+                 "Every render is repeated under three CUSTOM escape functions installed with Tera::set_escape_fn: a marker that wraps each call in \u27e6..\u27e7 "
+                 "(outside the marked regions and the literal tokens no data character may appear: the escaper ran on every unsafe write, whatever "
+                 "the characters), an xNN-style JS-string escaper (no bare / \" ' newline, every backslash starts one of its sequences) and the identity "
+                 "(poison verbatim); string literals of the template itself (with characters only non-HTML escapers rewrite) are printed directly and "
+                 "through ternary/or/and/~/set/capture/default/array forms; under every escaper the render with Chunk::optimize switched off (hook H2) "
+                 "must write the same text; safe strings of every length 0..40 from every mint point are concatenated with short unsafe ones in both "
+                 "orders (768 programs, a third per quick run); an opcode the model VM does not know is an oracle failure. "
                  "ORACLE on every render: autoescape on everywhere and no safe => after erasing the generator's literal tokens the output has none "
                  "of < > \" ' and (unless the program cuts captured text) every & starts one of the five entities, and the escaped poison is "
                  "present; autoescape off or `| safe` => the poison appears verbatim; the engine's per-template flag equals 'name ends with a "
                  "configured suffix'; all 128 ASCII code points through the real escaper equal the generated table. c01vm: the REAL finalized chunks "
-                 "and component table run on Model/VM.v in the world of Model/WorldC01.v; output/error class compared with the engine; on every case every chunk that can run must pass the "
+                 "and component table run on Model/VM.v in the world of Model/WorldC01.v; output/error class compared with the engine under the same escape function (a world parameter); for custom-escaper cases the "
+                 "unoptimised chunks of the same program are run on the model too and must write the same; on every case every chunk that can run must pass the "
                  "decidable side condition of the theorems (Model/CapCheck.v bodies_from_capture: the body of every RenderBodyComponent was pushed by "
                  "EndCapture); for special-free literal text (strict cases) the theorem's hypotheses are re-checked and the model output must be clean. Non-trivial = more than 20 output characters from a program using at least "
                  "one routing construct (all sweep and hand-written programs count). The sweep (5 mint points x 6 flag-preserving operations x "
